@@ -308,6 +308,11 @@ func (r *lockRoles) callerContextZA(v ssa.Value, depth int) bool {
 			default:
 				return false
 			}
+		case *ssa.Extract:
+			// a deadline / cancellation context an exported entry point builds from its own arguments (v_lock_u.go)
+			if !r.entryPointContextVU(x, depth) {
+				return false
+			}
 		default:
 			return false
 		}
